@@ -329,9 +329,12 @@ func (w *world) observe() {
 					}
 				}
 			}
-			// context expiry: must close once an accepted tick-changing transition ran after it ended
+			// context expiry: must close once an accepted transition ran after it ended (also one that moved no
+			// clock: the statement says "a transition has run since"; canceled and check transitions do not
+			// process subscriptions and leave it open-or-closed)
+			_ = changed
 			if !l.must && l.ctxIdx >= 0 && w.ctxDone[l.ctxIdx] >= 0 {
-				if txNo >= w.ctxDone[l.ctxIdx] && tx.Accepted && changed && !tx.IsCheck && touches(l, tx, w) {
+				if txNo >= w.ctxDone[l.ctxIdx] && tx.Accepted && !tx.IsCheck && touches(l, tx, w) {
 					l.must, l.why = true, fmt.Sprintf("context ended and accepted tx#%d ran since", txNo)
 				} else {
 					l.either = true
